@@ -47,11 +47,19 @@ class XFull:
                     while k < len(s_) and s_[k].lower() in digs: k += 1
                     v = int(s_[:k], base) if k else 0
                 return min(v, (1 << 64) - 1)
-            if base != 10: raise Unsupported("symbolic non-decimal literal")
-            v = z3.BitVecVal(0, 64); sat = z3.BoolVal(False)
+            if base not in (10, 16): raise Unsupported("symbolic literal in an unusual base")
+            # strtoul consumes digits of the base and stops at the first other character; saturates at ULONG_MAX
+            v = z3.BitVecVal(0, 64); sat = z3.BoolVal(False); stopped = z3.BoolVal(False)
             for b in bs:
-                wide = z3.ZeroExt(8, v) * 10 + z3.ZeroExt(8, z3.ZeroExt(56, bv(b, 8)) - 48)
-                sat = z3.Or(sat, z3.UGT(wide, z3.BitVecVal((1 << 64) - 1, 72))); v = z3.Extract(63, 0, wide)
+                c = z3.ZeroExt(56, bv(b, 8))
+                isd = z3.And(z3.UGE(c, 48), z3.ULE(c, 57)); d = c - 48
+                if base == 16:
+                    lo = z3.And(z3.UGE(c, 97), z3.ULE(c, 102)); up = z3.And(z3.UGE(c, 65), z3.ULE(c, 70))
+                    d = z3.If(isd, c - 48, z3.If(lo, c - 87, c - 55)); isd = z3.Or(isd, lo, up)
+                stopped = z3.Or(stopped, z3.Not(isd))
+                wide = z3.ZeroExt(8, v) * base + z3.ZeroExt(8, d)
+                sat = z3.Or(sat, z3.And(z3.Not(stopped), z3.UGT(wide, z3.BitVecVal((1 << 64) - 1, 72))))
+                v = z3.If(stopped, v, z3.Extract(63, 0, wide))
             return simp(z3.If(sat, z3.BitVecVal((1 << 64) - 1, 64), v))
         E.stubs['strtoul'] = strtoul
         E.stubs['_ZNSt14basic_ifstreamIcSt11char_traitsIcEE5closeEv'] = stubs.s_nop
@@ -99,9 +107,9 @@ def analyse(X, name, src, workdir):
         nrec = r.val if is_c(r.val) else None
         if nrec is None: out['findings'].append(('crash', "symbolic directive count")); continue
         img, lst = bs[:len(bs) - 16*nrec], bs[len(bs) - 16*nrec:]
-        bad = [i for i, b in enumerate(img) if isinstance(b, Undef)]
+        bad = [i for i, b in enumerate(img) if isinstance(b, Undef) and b.why != 'partial poison']
         if bad: out['findings'].append(('uninit', f"image byte {bad[0]} (of {len(img)}) is an indeterminate value: {img[bad[0]].why}"))
-        badl = [i for i, b in enumerate(lst) if isinstance(b, Undef)]
+        badl = [i for i, b in enumerate(lst) if isinstance(b, Undef) and b.why != 'partial poison']
         if badl: out['findings'].append(('uninit', f"listing field {badl[0] // 4 % 4} of directive {badl[0] // 16} is an indeterminate value"))
         out['status'] = 'compiled'
         if not bad and all(is_c(b) for b in img):
@@ -226,3 +234,162 @@ def c11_family(ck):
     ck.sample({'family': 'whole compiler, host memory indeterminate', 'programs': len(jobs), 'compiled': n_ok, 'rejected': n_rej,
                'images_identical_to_native_xcmp': n_match})
     return results
+
+# ---------------------------------------------------------------- token level: the parser driven by an arbitrary token sequence
+IDENT_POOL = [b'main', b'x', b'f']
+STRING_POOL = [b'', b'ab']
+
+class XTokens(XFull):
+    """Lexer::readToken is replaced by a source of arbitrary tokens: each call returns a fresh symbolic token kind (the
+    parser's own switches fork on it), an identifier from a small pool, a symbolic 32-bit number, a string from a pool;
+    after `ntok` tokens the source is at END_OF_FILE. Every token sequence of up to ntok tokens is covered."""
+    def __init__(self):
+        super().__init__()
+        self.TOK = read_enum(os.path.join(build.REPO, 'xcmp.hpp'), 'Token')
+        E = Engine(self.M); stubs.install(E); st = State(); p = st.alloc(4096, 'lexer-probe')
+        self.foff = []
+        for k in range(4):
+            st, q = E.run1('xf_lexer_field', [p, k], st); self.foff.append(q.off - p.off)
+
+    def run_tokens(self, ntok, deadline_s=None, max_paths=200000):
+        E = self.engine([]); E.max_paths = max_paths
+        if deadline_s: E.deadline = time.time() + deadline_s
+        T = self.TOK; NT = max(T.values())
+        def readToken(E_, st, a):
+            lx = a[0]; n = st.x.get('ntok', 0)
+            if n >= ntok: return T['END_OF_FILE']
+            t = z3.BitVec(f'tok{n}', 32)
+            if n == st.x.get('ntok_constrained', -1) + 1:
+                pass
+            r = None
+            if E_.branch(st, t == T['IDENTIFIER']):
+                k = E_.choose(st, len(IDENT_POOL)); S = stubs.Str(E_, st, lx.add(self.foff[0])); S.assign_bytes(list(IDENT_POOL[k])); r = T['IDENTIFIER']
+                st.x['toklog'] = st.x.get('toklog', ()) + (('id', IDENT_POOL[k]),)
+            elif E_.branch(st, t == T['NUMBER']):
+                v = z3.BitVec(f'num{n}', 32); E_.store(st, lx.add(self.foff[1]), 4, v); r = T['NUMBER']
+                st.x['toklog'] = st.x.get('toklog', ()) + (('num', v),)
+            elif E_.branch(st, t == T['STRING']):
+                k = E_.choose(st, len(STRING_POOL)); S = stubs.Str(E_, st, lx.add(self.foff[2])); S.assign_bytes(list(STRING_POOL[k])); r = T['STRING']
+                st.x['toklog'] = st.x.get('toklog', ()) + (('str', STRING_POOL[k]),)
+            elif E_.branch(st, t == T['END_OF_FILE']):
+                r = T['END_OF_FILE']; st.x['toklog'] = st.x.get('toklog', ()) + (('tok', r),)
+            else:
+                st.pc.append(z3.ULE(t, NT)); r = t
+                st.x['toklog'] = st.x.get('toklog', ()) + (('tok', t),)
+            st.x['ntok'] = n + 1
+            return r
+        E.stubs['_ZN4xcmp5Lexer9readTokenEv'] = readToken
+        st = State(); b = st.alloc(8, 'bin-stream'); l = st.alloc(8, 'listing-stream')
+        return E, E.run('xf_compile_tokens', [b, l], st)
+
+    def token_text(self, E, st):
+        """source text of the token sequence of a path (a model picks the tokens still symbolic)"""
+        inv = {v: k for k, v in self.TOK.items()}
+        ok, m = E.sat(st)
+        SP = {'LBRACKET': '[', 'RBRACKET': ']', 'LPAREN': '(', 'RPAREN': ')', 'ASS': ':=', 'BEGIN': '{', 'END': '}', 'SEMICOLON': ';', 'COMMA': ',', 'NOT': '~',
+              'PLUS': '+', 'MINUS': '-', 'EQ': '=', 'NE': '~=', 'LS': '<', 'LE': '<=', 'GR': '>', 'GE': '>=', 'NONE': '@', 'END_OF_FILE': ''}
+        out = []
+        for kind, v in st.x.get('toklog', ()):
+            if kind == 'id': out.append(v.decode())
+            elif kind == 'num': out.append(str(model_int(m, v)) if m is not None else '0')
+            elif kind == 'str': out.append('"' + v.decode() + '"')
+            else:
+                t = v if is_c(v) else (model_int(m, v) if m is not None else 0)
+                nm = inv.get(t, 'NONE'); out.append(SP.get(nm, nm.lower()))
+        return ' '.join(out)
+
+# ---------------------------------------------------------------- C09 machinery: prefixes, job kinds, confirmation
+import re as _re
+KEYWORDS = {'and': 'AND', 'array': 'ARRAY', 'do': 'DO', 'else': 'ELSE', 'false': 'FALSE', 'func': 'FUNC', 'if': 'IF', 'is': 'IS', 'or': 'OR', 'proc': 'PROC',
+            'return': 'RETURN', 'skip': 'SKIP', 'stop': 'STOP', 'then': 'THEN', 'true': 'TRUE', 'val': 'VAL', 'var': 'VAR', 'while': 'WHILE'}
+SYMBOLS = {'[': 'LBRACKET', ']': 'RBRACKET', '(': 'LPAREN', ')': 'RPAREN', ':=': 'ASS', '{': 'BEGIN', '}': 'END', ';': 'SEMICOLON', ',': 'COMMA', '~': 'NOT',
+           '+': 'PLUS', '-': 'MINUS', '=': 'EQ', '~=': 'NE', '<': 'LS', '<=': 'LE', '>': 'GR', '>=': 'GE'}
+
+def tokenize(text):
+    """token list of a (well-formed) prefix text: [(kind name, payload)]"""
+    out = []
+    for m in _re.finditer(r'\s*(?:([A-Za-z][A-Za-z0-9_]*)|(\d+)|(:=|~=|<=|>=|[\[\](){};,~+\-=<>]))', text):
+        if m.group(1): out.append((KEYWORDS[m.group(1)], None) if m.group(1) in KEYWORDS else ('IDENTIFIER', m.group(1).encode()))
+        elif m.group(2): out.append(('NUMBER', int(m.group(2))))
+        else: out.append((SYMBOLS[m.group(3)], None))
+    return out
+
+CONTEXT = "val exit = 0; val k = 3; var x; array t[3]; func f(val a) is return a proc p(val a) is skip proc main() is"
+BODY_POOL = [b'x', b't', b'f', b'p', b'u', b'k']
+
+def run_token_job(X, ntok, first=None, prefix=None, pool=None, deadline_s=None):
+    """all token sequences: `prefix` (concrete tokens) followed by ntok arbitrary tokens, the first of them fixed to `first`
+    when given (work splitting), then END_OF_FILE"""
+    pre = tokenize(prefix) if prefix else []
+    names = pool or IDENT_POOL
+    E = X.engine([]); E.max_paths = 400000
+    if deadline_s: E.deadline = time.time() + deadline_s
+    T = X.TOK; NT = max(T.values())
+    def log(st, item): st.x['toklog'] = st.x.get('toklog', ()) + (item,)
+    def readToken(E_, st, a):
+        lx = a[0]; n = st.x.get('ntok', 0)
+        if n < len(pre):
+            kind, pay = pre[n]
+            if kind == 'IDENTIFIER': stubs.Str(E_, st, lx.add(X.foff[0])).assign_bytes(list(pay)); log(st, ('id', pay))
+            elif kind == 'NUMBER': E_.store(st, lx.add(X.foff[1]), 4, pay); log(st, ('num', pay))
+            else: log(st, ('tok', T[kind]))
+            st.x['ntok'] = n + 1; return T[kind]
+        if n >= len(pre) + ntok: return T['END_OF_FILE']
+        t = z3.BitVec(f'tok{n}', 32)
+        if n == len(pre) and first is not None and not any(c is first_c for c in st.pc):
+            st.pc.append(first_c)
+        if E_.branch(st, t == T['IDENTIFIER']):
+            k = E_.choose(st, len(names)); stubs.Str(E_, st, lx.add(X.foff[0])).assign_bytes(list(names[k])); r = T['IDENTIFIER']; log(st, ('id', names[k]))
+        elif E_.branch(st, t == T['NUMBER']):
+            v = z3.BitVec(f'num{n}', 32); E_.store(st, lx.add(X.foff[1]), 4, v); r = T['NUMBER']; log(st, ('num', v))
+        elif E_.branch(st, t == T['STRING']):
+            k = E_.choose(st, len(STRING_POOL)); stubs.Str(E_, st, lx.add(X.foff[2])).assign_bytes(list(STRING_POOL[k])); r = T['STRING']; log(st, ('str', STRING_POOL[k]))
+        elif E_.branch(st, t == T['END_OF_FILE']): r = T['END_OF_FILE']; log(st, ('tok', r))
+        else:
+            st.pc.append(z3.ULE(t, NT)); r = t; log(st, ('tok', t))
+        st.x['ntok'] = n + 1
+        return r
+    first_c = (z3.BitVec(f'tok{len(pre)}', 32) == first) if first is not None else None
+    E.stubs['_ZN4xcmp5Lexer9readTokenEv'] = readToken
+    st = State(); b = st.alloc(8, 'bin-stream'); l = st.alloc(8, 'listing-stream')
+    return E, E.run('xf_compile_tokens', [b, l], st)
+
+def render_tokens(X, toklog, m):
+    inv = {v: k for k, v in X.TOK.items()}
+    SP = {v: k for k, v in SYMBOLS.items()}; SP.update({'NONE': '@', 'END_OF_FILE': ''})
+    out = []
+    for kind, v in toklog:
+        if kind == 'id': out.append(v.decode())
+        elif kind == 'num': out.append(str(v if is_c(v) else (model_int(m, v) if m is not None else 0)))
+        elif kind == 'str': out.append('"' + v.decode() + '"')
+        else:
+            t = v if is_c(v) else (model_int(m, v) if m is not None else 0)
+            nm = inv.get(t, 'NONE'); out.append(SP.get(nm, nm.lower()))
+    return ' '.join(x for x in out if x)
+
+def classify(X, E, rs, text_of):
+    """findings [(category, what, source text)] of a set of compiler paths; text_of(x_dict, model) renders the input"""
+    out = []; stats = dict(paths=len(rs), compiled=0, rejected=0)
+    def txt(st, m=None):
+        if m is None:
+            ok_, m = E.sat(st)
+        return text_of(st.x, m)
+    for r in rs:
+        if r.kind == 'ret':
+            stats['compiled'] += 1
+            bs = out_bytes(r.st)
+            # bytes cut out of a poison-carrying value are not indeterminate memory: the poison (signed overflow) is reported where it reaches a branch
+            if any(isinstance(b, Undef) and b.why != 'partial poison' for b in bs): out.append(('uninit', "an emitted byte or listing field is an indeterminate value", txt(r.st)))
+            continue
+        if r.kind == 'throw':
+            stats['rejected'] += 1
+            if not E.ti_derives(r.st, r.val.tinfo, Ptr(('g', '_ZTISt9exception'), 0)): out.append(('crash', "an exception that is not derived from std::exception escapes", txt(r.st)))
+            elif any(e[0] == 'byte' for e in r.st.events): out.append(('partial-output', "a diagnostic is raised after output was emitted", txt(r.st)))
+            continue
+        if r.kind == 'budget': out.append(('budget', "compilation does not finish within the engine's step, depth or time budget", txt(r.st))); continue
+        if r.kind == 'violation':
+            cat = 'uninit' if r.val.kind == 'uninitialised' else 'crash'
+            out.append((cat, f"{r.val.kind}: {r.val.msg} at {(getattr(r.val, 'where', None) or [''])[-1]}", txt(r.st, getattr(r.val, 'model', None)))); continue
+        out.append(('crash', f"{r.kind}: {r.val}", txt(r.st)))
+    for (kind, what, m, pc_), x_ in zip(E.ub, E.ub_x): out.append(('ub', f"{kind}: {what}", text_of(x_, m)))
+    return out, stats
